@@ -28,16 +28,27 @@ SB = "CodegenCtx._generate_switch_body"
 
 
 def check_range_runs(ctx, rep, RULE):
+    """Run detection of the range collapser, recognised by what it does - a loop whose body opens with `ord(L[i - 1]) + 1 == ord(L[i])` - for whichever list L
+    and start position the code scans (the value list itself from the first character on, or a slice of it without end-of-input)."""
     model = ctx.model
     fn = model.func(GCT)
-    loops = [n for n in walk_no_nested(fn) if isinstance(n, ast.For) and "range(start_idx + 1" in ast.unparse(n.iter)]
+    loops = []
+    for n in walk_no_nested(fn):
+        if isinstance(n, ast.For) and n.body and isinstance(n.body[0], ast.If):
+            m = re.fullmatch(r"ord\((\w+)\[(\w+) - 1\]\) \+ 1 == ord\(\1\[\2\]\)", ast.unparse(n.body[0].test))
+            if m and ast.unparse(n.target) == m.group(2):
+                loops.append((n, m.group(1), m.group(2)))
     if len(loops) != 1:
         raise AnalysisError("range scan loop not found in _generate_condition_for_transition")
-    lp = loops[0]
-    iv = ast.unparse(lp.target)
+    lp, L, iv = loops[0]
+    it = ast.unparse(lp.iter)
+    m = re.fullmatch(rf"range\((?:(\w+) \+ 1|1), len\({L}\)\)", it)
+    S = (m.group(1) or "0") if m else None
+    rep.check(m is not None, RULE, GCT, "the scan visits every position after the first of the scanned list", f"the scan loop ranges over `{it}`")
     top = [st for st in lp.body if isinstance(st, ast.If)]
-    ok = len(lp.body) == 1 and len(top) == 1 and ast.unparse(top[0].test) == f"ord(on_values_remaining[{iv} - 1]) + 1 == ord(on_values_remaining[{iv}])"
+    ok = len(lp.body) == 1 and len(top) == 1
     rep.check(ok, RULE, GCT, "consecutive test: ord(prev) + 1 == ord(cur)", "run detection condition changed")
+    src = ast.unparse(fn)
     if ok:
         cons, brk = top[0].body, top[0].orelse
         rep.check(len(cons) == 1 and ast.unparse(cons[0]) == f"range_end = {iv}", RULE, GCT, "consecutive value extends the run", "run extension changed")
@@ -48,17 +59,34 @@ def check_range_runs(ctx, rep, RULE):
         emit = [st for st in brk if isinstance(st, ast.If)]
         thr = "range_end - range_start >= ProgramData.option(ProgramOption.COLLAPSED_RANGE_LENGTH)"
         rep.check(len(emit) == 1 and ast.unparse(emit[0].test) == thr and brk.index(emit[0]) == 0, RULE, GCT, "a closed run is emitted iff long enough, before the restart", "closed-run emission changed")
-        # (the closing test may additionally require that a first element exists: `range_start < len(list) and <threshold>` - C18.r)
-        after = [st for st in walk_no_nested(fn) if isinstance(st, ast.If) and ast.unparse(st.test) in (thr, "range_start < len(on_values_remaining) and " + thr)]
+        # (the closing test may additionally require that a first element exists: `range_start < len(list) and <threshold>` / `list and <threshold>` - C18.r)
+        after = [st for st in walk_no_nested(fn) if isinstance(st, ast.If) and ast.unparse(st.test) in (thr, f"range_start < len({L}) and " + thr, f"{L} and " + thr)]
         rep.check(len(after) == 2, RULE, GCT, "the last run is emitted after the loop under the same threshold", "final-run emission changed")
         for e in after:
-            src = "\n".join(ast.unparse(s) for s in e.body)
-            rep.check("for j in range(range_start, range_end + 1):" in src and "used.append(on_values_remaining[j])" in src and
-                      "checks.append(self._generate_range_check(on_values_remaining[range_start], on_values_remaining[range_end]))" in src, RULE, GCT,
+            esrc = "\n".join(ast.unparse(x) for x in e.body)
+            rep.check("for j in range(range_start, range_end + 1):" in esrc and re.search(r"used\.append\(\w+\[j\]\)", esrc) is not None and
+                      re.search(r"checks\.append\(self\._generate_range_check\(\w+\[range_start\], \w+\[range_end\]\)\)", esrc) is not None, RULE, GCT,
                       "emitted run = [range_start, range_end] inclusive; its values are marked used", "range emission body changed", line=e.lineno)
-    src = ast.unparse(fn)
+        if S is not None:
+            rep.check(f"range_start = {S}" in src and f"range_end = {S}" in src, RULE, GCT, "first run starts at the first position scanned", "initial run bounds changed")
+            if S != "0":
+                rep.check(model.has(GCT, f"{S} = 1 if DFTransition.End in {L} else 0"), RULE, GCT, "the scan starts behind end-of-input (sorted to the front), which has no code point",
+                          f"where the scan of `{L}` starts (`{S}`) changed")
+            else:
+                rep.check(model.has(GCT, f"{L} = on_values_remaining[1:] if DFTransition.End in on_values_remaining else on_values_remaining"), RULE, GCT,
+                          "the scanned list is the value list without end-of-input (sorted to the front)", f"what `{L}` holds changed")
+    # one index space: a position found by the scan only means something in the list that was scanned
+    idx_vars = {"range_start", "range_end", iv, "j"}
+    foreign = []
+    for n in walk_no_nested(fn):
+        if isinstance(n, ast.Subscript) and isinstance(n.value, ast.Name) and not isinstance(n.slice, ast.Slice):
+            names = {x.id for x in ast.walk(n.slice) if isinstance(x, ast.Name)}
+            if names & idx_vars and n.value.id != L:
+                foreign.append(ast.unparse(n))
+    rep.check(not foreign, RULE, GCT, f"positions of the scan index the scanned list `{L}` only",
+              f"positions computed while scanning `{L}` are used to index another list ({sorted(set(foreign))}): where the two differ (end-of-input in front) the value marked as covered "
+              "by the range test is the one before the run - it gets no equality test and its byte takes the Else arm, while the last value of the run is tested twice")
     rep.check("for x in used:" in src and "on_values_remaining.remove(x)" in src, RULE, GCT, "values covered by a range test get no equality test", "used values are no longer removed")
-    rep.check("range_start = start_idx" in src and "range_end = start_idx" in src, RULE, GCT, "first run starts at the first character", "initial run bounds changed")
 
 
 def run(ctx, rep, tier):
